@@ -96,6 +96,17 @@ def check_tile(t, pl, cs, R, nsub, probs):
     if sd.min() < -1e-12:
         i, j = np.unravel_index(np.argmin(sd), sd.shape)
         probs.append("%s: pixel (%d,%d) lies %.3g rad outside its tile" % (p, i, j, -sd.min()))
+    # one pixelisation in both directions: asking for the pixel of the sky position reported for pixel (i, j) gives this tile and
+    # (j, i) again (to the 2 pixels the inverse function promises; away from the poles), including pixels next to the borders
+    if p[0] <= 12 and nsub >= 3:
+        for _ in range(4):
+            i, j = R.choice([0, 1, 2, 3, 128, 252, 254, 255, R.randrange(256)]), R.choice([0, 1, 3, 5, 128, 250, 253, 255, R.randrange(256)])
+            if abs(lat[i, j]) > 1.5533:
+                continue
+            t2, x, y = toast.toast_pixel_for_point(p[0], float(lat[i, j]), float(lon[i, j]), coordsys=cs)
+            if tuple(int(v) for v in t2.pos) != p or not (abs(x - j) <= 2 and abs(y - i) <= 2):
+                probs.append("%s: the position reported for pixel (row %d, col %d) is looked up as tile %s pixel (x=%.2f, y=%.2f)" % (p, i, j, tuple(t2.pos), x, y))
+                break
     # transposition guard
     for (i, j, k, name) in ((0, 255, 1, "UR"), (255, 0, 3, "LL"), (0, 0, 0, "UL"), (255, 255, 2, "LR")):
         dist = np.linalg.norm(tc - G[i, j], axis=1)
